@@ -1287,12 +1287,20 @@ static qtreetbl_obj_t *remove_obj(qtreetbl_t *tbl, qtreetbl_obj_t *obj,
             // copy min to this then remove min
             qtreetbl_obj_t *minobj = find_min(obj->right);
             assert(minobj != NULL);
-            free(obj->name);
-            free(obj->data);
-            obj->name = qmemdup(minobj->name, minobj->namesize);
+            // swap payloads; remove_min() then releases the removed key/value
+            // (no allocation, so removal can not fail half-way)
+            void *tmpname = obj->name;
+            size_t tmpnamesize = obj->namesize;
+            void *tmpdata = obj->data;
+            size_t tmpdatasize = obj->datasize;
+            obj->name = minobj->name;
             obj->namesize = minobj->namesize;
-            obj->data = qmemdup(minobj->data, minobj->datasize);
+            obj->data = minobj->data;
             obj->datasize = minobj->datasize;
+            minobj->name = tmpname;
+            minobj->namesize = tmpnamesize;
+            minobj->data = tmpdata;
+            minobj->datasize = tmpdatasize;
             obj->right = remove_min(obj->right);
             tbl->num--;
         } else {
